@@ -70,6 +70,11 @@ pub fn hash8(k: u64, a: u64) -> u8 {
     (z >> 40) as u8
 }
 
+pub fn tool_error(msg: &str) -> ! {
+    eprintln!("harness tool error: {msg}");
+    std::process::exit(2)
+}
+
 pub struct Out {
     w: BufWriter<Box<dyn Write>>,
     pub lines: u64,
@@ -80,7 +85,9 @@ impl Out {
         let w: Box<dyn Write> = if path == "-" {
             Box::new(std::io::stdout())
         } else {
-            Box::new(std::fs::File::create(path).expect("cannot create output"))
+            // infrastructure failures are tool errors (exit 2), never panics: a panic of this process is read as
+            // data about the code under test
+            Box::new(std::fs::File::create(path).unwrap_or_else(|e| tool_error(&format!("cannot create {path}: {e}"))))
         };
         Out {
             w: BufWriter::with_capacity(1 << 20, w),
@@ -88,12 +95,15 @@ impl Out {
         }
     }
     pub fn ev(&mut self, v: serde_json::Value) {
-        serde_json::to_writer(&mut self.w, &v).unwrap();
-        self.w.write_all(b"\n").unwrap();
+        if serde_json::to_writer(&mut self.w, &v).is_err() || self.w.write_all(b"\n").is_err() {
+            tool_error("cannot write the trace");
+        }
         self.lines += 1;
     }
     pub fn finish(mut self) -> u64 {
-        self.w.flush().unwrap();
+        if self.w.flush().is_err() {
+            tool_error("cannot write the trace");
+        }
         self.lines
     }
 }
